@@ -64,20 +64,31 @@ def _check_pair(name, a, b, affected, sweep_part, aspect):
 def _make_p1(param):
     name, aspect = param
 
-    def p1(v0: int, v1: int, v2: int, v3: int, v4: int, v5: int, v6: int, v7: int, t0: int, t1: int, w1: int, w2: int, depth: int, pos: int):
+    def p1(v0: int, v1: int, v2: int, v3: int, v4: int, v5: int, v6: int, v7: int, t0: int, t1: int, w1: int, w2: int, depth: int, pos: int, special: int):
         from vt.engine import assume
 
-        assume(w1 != w2)
-        return _p1_body(name, [v0, v1, v2, v3, v4, v5, v6, v7, 0, 0], [t0, t1], w1, w2, depth, pos, aspect)
+        assume(w1 != w2 and 0 <= special <= 3)
+        if not name.startswith("sweep:") or name in ("sweep:variable-domain",):
+            assume(special == 0)
+        return _p1_body(name, [v0, v1, v2, v3, v4, v5, v6, v7, 0, 0], [t0, t1], w1, w2, depth, pos, aspect, special)
 
     return p1
 
 
-def _p1_body(name, V, tvals, w1, w2, depth, pos, aspect):
+SPECIAL_DOMAIN = {1: (0, float("inf")), 2: (1, float("nan")), 3: (0, float("-inf"))}
+
+
+def _p1_body(name, V, tvals, w1, w2, depth, pos, aspect, special=0):
     from vt import lib
     from vt.engine import assume
 
     lib.register()
+    for sp, (idx, val) in SPECIAL_DOMAIN.items():
+        if special == sp:
+            # the swept domain (the same in both configurations) holds a non-finite float: every sweep mutation must
+            # still be visible in the identities
+            tvals = list(tvals)
+            tvals[idx] = val
     if ihash.INSTALLED:
         ihash.reset()
     muts = _mutations()
@@ -128,7 +139,7 @@ MUTS = ["processor", "node-added", "node-order", "param-value", "sweep:wrapped-p
 def _replay_p1(param, a):
     name, aspect = param
     V = [a["v%d" % i] for i in range(8)] + [0, 0]
-    v = _p1_body(name, V, [a["t0"], a["t1"]], a["w1"], a["w2"], a["depth"], a["pos"], aspect)
+    v = _p1_body(name, V, [a["t0"], a["t1"]], a["w1"], a["w2"], a["depth"], a["pos"], aspect, a.get("special", 0))
     return C04._wrap(v)
 
 
@@ -206,7 +217,7 @@ def obligations(tier: str) -> List[Ob]:
     tg = ["semantiva/pipeline/graph_builder.py:_canonical_node", "semantiva/pipeline/graph_builder.py:build_canonical_spec", "semantiva/metadata/semantic_id.py:compute_pipeline_semantic_id", "semantiva/metadata/semantic_id.py:compute_pipeline_config_id", "semantiva/metadata/semantic_id.py:compute_node_semantic_id", "semantiva/metadata/semantic_id.py:variable_domain_signature", "semantiva/data_processors/parametric_sweep_factory.py:ParametricSweepFactory.create"]
     return [
         Ob("C05.P1", _make_p1, _replay_p1, params=[(m, a) for m in MUTS for a in ("semantic_id", "config_id", "node")], budget=600, per_path=60,
-           bound="16 mutation operators x 3 aspects (semantic id / config id / affected node's UUID-or-semantic-id), one obligation each (processor, node added, node order, parameter value at depth 0-2 / in a list / in a dict in a list, and every part of a sweep definition: wrapped processor, expression, expression constant, mode, broadcast, collection, variable kind, variable domain at a symbolic position of a 7-element sequence, domain length); all values symbolic, mutated values w1 != w2",
+           bound="(for the sweep operators the shared swept domain optionally holds inf / nan / -inf, symbolic selector) 16 mutation operators x 3 aspects (semantic id / config id / affected node's UUID-or-semantic-id), one obligation each (processor, node added, node order, parameter value at depth 0-2 / in a list / in a dict in a list, and every part of a sweep definition: wrapped processor, expression, expression constant, mode, broadcast, collection, variable kind, variable domain at a symbolic position of a 7-element sequence, domain length); all values symbolic, mutated values w1 != w2",
            targets=tg, stubs=list(STUBS) + ["injective-hash model"]),
         Ob("C05.P2", lambda _p: _p2, lambda _p, a: C04._wrap(_p2_body(a["v"], a["n"])), budget=120, bound="2..4 textually identical nodes with one symbolic parameter value", targets=tg[:2]),
         Ob("C05.P3", lambda _p: _p3, _replay_p3, budget=600, per_path=60,
